@@ -1227,7 +1227,8 @@ tsk_treeseq_check_windows(const tsk_treeseq_t *self, tsk_size_t num_windows,
         }
     }
     for (j = 0; j < num_windows; j++) {
-        if (windows[j] >= windows[j + 1]) {
+        /* written so that NaN boundaries are rejected too */
+        if (!(windows[j] < windows[j + 1])) {
             ret = tsk_trace_error(TSK_ERR_BAD_WINDOWS);
             goto out;
         }
